@@ -50,6 +50,7 @@ import (
 	ecommon "github.com/ethereum/go-ethereum/common"
 	etypes "github.com/ethereum/go-ethereum/core/types"
 	ethcrypto "github.com/ethereum/go-ethereum/crypto"
+	"github.com/golang/protobuf/proto"
 	gmsm2 "github.com/tjfoc/gmsm/sm2"
 	"pgregory.net/rapid"
 	"verifharness/lib"
@@ -677,6 +678,243 @@ func TestPropEthWrapped(t *testing.T) {
 				lib.Violation(t, prop, "TestPropEthWrapped", rendering(m.Kind, m.Tx), "wrapped Ethereum transaction: CheckSign=%v panic=%v after %s", ok, pv, m.Kind)
 			}
 			lib.NonTrivial(lib.Fingerprint(raw, "ethwrapped", m.Kind, m.Tx.FullHash()))
+		}
+	})
+}
+
+// ---------------------------------------------------------------------------------------------------------
+// property 4: results are a function of the transaction (and height) only - never of what was called before
+//
+// Hash, FullHash and CheckSign run on pooled objects (transaction pool, encode-buffer pool). The property speaks of
+// "a transaction's hash" and of a signature that "verifies": both are values of the transaction, so any sequence of
+// calls over any set of transactions must give each call the value it has in isolation. Sequences of
+// {Hash, FullHash, Clone+Hash, Clone+FullHash, CheckSign, Sign, group CheckSign, wire CheckSign} are generated over a
+// small set of transactions that always contains an unsigned one (nil Signature), a validly signed one and a badly
+// signed one, plus transactions with empty signature bytes / nil public key and small groups (fully signed, or with
+// an unsigned member). Oracle per step, independent of every pool: Hash = sha256(encoding without Signature and
+// Header) and FullHash = sha256(encoding), both through the plain protobuf marshaller on a reflection copy (the
+// documented definitions; TestPropHashClone/C17 establish that they agree with the code in isolation), CheckSign =
+// the verdict known by construction (honestly signed -> true at any height >= 0; unsigned, empty, altered -> false).
+// Everything runs on one goroutine: sync.Pool hands a goroutine back what it has just put.
+
+type seqItem struct {
+	Class  string // unsigned | good | bad | emptysig | group_good | group_unsigned_member
+	tx     *types.Transaction
+	group  *types.Transactions
+	signID int32
+	priv   crypto.PrivKey
+}
+
+func (it *seqItem) wantSign() bool { return it.Class == "good" || it.Class == "group_good" }
+
+func pbMarshal(m proto.Message) []byte {
+	b, err := proto.Marshal(m)
+	if err != nil {
+		lib.Inconclusive("proto.Marshal: %v", err)
+	}
+	return b
+}
+
+func refHash(tx *types.Transaction) []byte {
+	c := shallowCopy(tx)
+	c.Signature, c.Header = nil, nil
+	h := sha256.Sum256(pbMarshal(c))
+	return h[:]
+}
+
+func refFullHash(tx *types.Transaction) []byte {
+	h := sha256.Sum256(pbMarshal(shallowCopy(tx)))
+	return h[:]
+}
+
+func genSeqItem(t *rapid.T, class string, i int) *seqItem {
+	label := fmt.Sprintf("item%d/", i)
+	tx := genTx(t, false)
+	ty := rapid.SampledFrom(sigTypes).Draw(t, label+"type")
+	if ty.Name == secp256k1eth.Name && noteCarrying(tx) {
+		ty = sigTypes[0] // keep "good" unconditional: note-carrying payloads are finding kEthNote's subject
+	}
+	it := &seqItem{Class: class, tx: tx, signID: types.EncodeSignID(ty.ID, rapid.Int32Range(0, 2).Draw(t, label+"addrID")),
+		priv: privKey(t, ty.Name, rapid.Uint64().Draw(t, label+"keySeed"))}
+	switch class {
+	case "good":
+		tx.Sign(it.signID, it.priv)
+	case "bad": // signed, then a signed field altered
+		tx.Sign(it.signID, it.priv)
+		tx.Nonce++
+	case "emptysig":
+		pub := it.priv.PubKey().Bytes()
+		if rapid.Bool().Draw(t, label+"nilPub") {
+			pub = nil
+		}
+		tx.Signature = &types.Signature{Ty: it.signID, Pubkey: pub, Signature: rapid.SampledFrom([][]byte{nil, {}}).Draw(t, label+"emptySig")}
+	case "group_good", "group_unsigned_member":
+		n := rapid.IntRange(2, 3).Draw(t, label+"members")
+		txs := make([]*types.Transaction, n)
+		for k := range txs {
+			txs[k] = &types.Transaction{Execer: []byte("coins"), Payload: rapid.SliceOfN(rapid.Byte(), 0, 40).Draw(t, label+"payload"),
+				Nonce: rapid.Int64().Draw(t, label+"nonce")<<3 | int64(k), To: "1Q4NhureJxKNBf71d26B9J3fBQoQcfmez2", ChainID: cfg.GetChainID()}
+		}
+		g, err := types.CreateTxGroup(txs, cfg.GetMinTxFeeRate())
+		if err != nil {
+			t.Fatalf("harness: CreateTxGroup: %v", err)
+		}
+		skip := -1
+		if class == "group_unsigned_member" {
+			skip = rapid.IntRange(0, n-1).Draw(t, label+"unsignedMember")
+		}
+		for k := range g.Txs {
+			if k != skip {
+				g.Txs[k].Sign(it.signID, it.priv)
+			}
+		}
+		it.group, it.tx = g, g.Txs[n-1]
+	}
+	return it
+}
+
+type seqOp struct {
+	Op   string `json:"op"`
+	Item int    `json:"item"`
+}
+
+var seqOps = []string{"hash", "fullhash", "clone_hash", "clone_fullhash", "checksign", "checksign", "sign", "group_checksign", "wire_checksign"}
+
+func TestPropCallOrderIndependence(t *testing.T) {
+	defer lib.Flush()
+	rapid.Check(t, func(t *rapid.T) {
+		classes := []string{"unsigned", "good", "bad"}
+		for extra := rapid.IntRange(0, 3).Draw(t, "extraItems"); extra > 0; extra-- {
+			classes = append(classes, rapid.SampledFrom([]string{"unsigned", "good", "bad", "emptysig", "emptysig", "group_good", "group_good", "group_unsigned_member", "group_unsigned_member"}).Draw(t, "class"))
+		}
+		items := make([]*seqItem, len(classes))
+		for i, c := range classes {
+			items[i] = genSeqItem(t, c, i)
+		}
+		h := rapid.SampledFrom(heights).Draw(t, "height")
+		n := rapid.IntRange(6, 30).Draw(t, "nops")
+		ops := make([]seqOp, 0, n+6)
+		for i := 0; i < n; i++ {
+			ops = append(ops, seqOp{rapid.SampledFrom(seqOps).Draw(t, "op"), rapid.IntRange(0, len(items)-1).Draw(t, "item")})
+		}
+		// the named interleavings, always present: CheckSign(unsigned) -> Hash(other); CheckSign(bad) -> CheckSign(good); FullHash -> Hash
+		ops = append(ops, seqOp{"checksign", 0}, seqOp{"hash", 1}, seqOp{"checksign", 2}, seqOp{"checksign", 1}, seqOp{"fullhash", 2}, seqOp{"hash", 2})
+
+		initial := make([]map[string]string, len(items))
+		for i, it := range items {
+			initial[i] = map[string]string{"class": it.Class, "tx": txHex(it.tx)}
+			if it.group != nil {
+				initial[i]["group"] = hex.EncodeToString(pbMarshal(it.group))
+			}
+		}
+		lib.Eval()
+		kinds := map[string]bool{}
+		pattern := false // a CheckSign of a signature-less item directly followed by a hash / verification of another item
+		prevNoSig := -1  // item index of the previous step if it was such a CheckSign
+		for step, o := range ops {
+			it := items[o.Item]
+			fail := func(format string, a ...interface{}) {
+				lib.Violation(t, prop, "TestPropCallOrderIndependence", map[string]interface{}{"height": h, "items": initial, "ops": ops[:step+1]},
+					"step %d (%s on item %d, %s): %s", step, o.Op, o.Item, it.Class, fmt.Sprintf(format, a...))
+			}
+			op := o.Op
+			if it.group == nil && (op == "group_checksign" || op == "wire_checksign") {
+				op = "checksign"
+				for _, g := range items { // redirect group operations to the first group of the case, if there is one
+					if g.group != nil {
+						it, op = g, o.Op
+						break
+					}
+				}
+			}
+			if op == "sign" && (it.group != nil || o.Item < 3) { // items 0..2 keep their class: unsigned, good, bad
+				op = "checksign"
+			}
+			before := pbMarshal(it.tx)
+			// the code under test runs inside the closure; its outcome comes back as a message so that the
+			// harness's own failure path is never caught by the recover
+			msg := func() (msg string) {
+				defer func() {
+					if r := recover(); r != nil {
+						msg = fmt.Sprintf("panicked: %v", r)
+					}
+				}()
+				switch op {
+				case "hash":
+					if got, want := it.tx.Hash(), refHash(it.tx); !bytes.Equal(got, want) {
+						return fmt.Sprintf("Hash() = %x, the transaction's hash is %x", got, want)
+					}
+				case "fullhash":
+					if got, want := it.tx.FullHash(), refFullHash(it.tx); !bytes.Equal(got, want) {
+						return fmt.Sprintf("FullHash() = %x, the transaction's full hash is %x", got, want)
+					}
+				case "clone_hash":
+					if got, want := it.tx.Clone().Hash(), refHash(it.tx); !bytes.Equal(got, want) {
+						return fmt.Sprintf("Clone().Hash() = %x, the transaction's hash is %x", got, want)
+					}
+				case "clone_fullhash":
+					if got, want := it.tx.Clone().FullHash(), refFullHash(it.tx); !bytes.Equal(got, want) {
+						return fmt.Sprintf("Clone().FullHash() = %x, the transaction's full hash is %x", got, want)
+					}
+				case "checksign":
+					want := it.wantSign()
+					if it.group != nil { // it.tx is the group's last member: signed unless it is the unsigned one
+						want = it.tx.Signature != nil
+					}
+					if got := it.tx.CheckSign(h); got != want {
+						return fmt.Sprintf("CheckSign(%d) = %v, in isolation it is %v", h, got, want)
+					}
+				case "sign":
+					it.tx.Sign(it.signID, it.priv)
+					it.Class = "good"
+				case "group_checksign":
+					if got := it.group.CheckSign(h); got != it.wantSign() {
+						return fmt.Sprintf("Transactions.CheckSign(%d) = %v, in isolation it is %v", h, got, it.wantSign())
+					}
+				case "wire_checksign":
+					var back types.Transaction
+					if err := types.Decode(types.Encode(it.group.Tx()), &back); err != nil {
+						lib.Inconclusive("group.Tx() does not round-trip: %v", err)
+					}
+					if got := types.NewTransactionCache(&back).CheckSign(h); got != it.wantSign() {
+						return fmt.Sprintf("TransactionCache.CheckSign(%d) of the shipped group = %v, in isolation it is %v", h, got, it.wantSign())
+					}
+				}
+				return ""
+			}()
+			if msg != "" {
+				fail("%s", msg)
+			}
+			if op != "sign" && !bytes.Equal(before, pbMarshal(it.tx)) {
+				fail("the call modified the transaction")
+			}
+			kinds[op] = true
+			lib.Class("seq:op:" + op)
+			cur := o.Item
+			for i := range items {
+				if items[i] == it {
+					cur = i
+				}
+			}
+			if prevNoSig >= 0 && prevNoSig != cur && op != "sign" {
+				pattern = true
+				lib.Class("seq:after_nosig_check:" + op)
+			}
+			prevNoSig = -1
+			noSig := it.tx.Signature == nil || it.group != nil && it.Class == "group_unsigned_member" && op != "checksign"
+			if strings.HasSuffix(op, "checksign") && noSig {
+				prevNoSig = cur
+			}
+		}
+		for _, it := range items {
+			lib.Class("seq:item:" + it.Class)
+		}
+		// non-trivial: the history-sensitive pattern occurred and at least four different operations were mixed
+		if pattern && len(kinds) >= 4 {
+			lib.NonTrivial(lib.Fingerprint(fmt.Sprint(initial), fmt.Sprint(ops), h))
+			if lib.SampleCount() < 4 {
+				lib.Sample(map[string]interface{}{"test": "call-order", "height": h, "items": initial, "ops": ops})
+			}
 		}
 	})
 }
